@@ -48,7 +48,8 @@ Print Assumptions C18_each_indexed_key_once.
    - the files D+1..end are empty (their space has been returned);
    - the records of dst0 below W0 are exactly the records that were there before, and no record straddles W0:
      the earlier file's old part is unchanged, GC only appended to it;
-   - every file still has at most one record per offset and nothing buffered. *)
+   - every file still has at most one record per offset and nothing buffered, and the bucket again satisfies the
+     GC precondition (files in offset order ...), so another pass may follow. *)
 Theorem C18_pass_layout : forall (cf : cfg) (hf : bytes -> N) (K : list bytes),
   (forall k1 k2, In k1 K -> In k2 K -> hf k1 = hf k2 -> k1 = k2) -> 0 < c_splitcap cf ->
   forall b m begin_ end_,
@@ -62,9 +63,25 @@ Theorem C18_pass_layout : forall (cf : cfg) (hf : bytes -> N) (K : list bytes),
     (forall c, (D < c <= end_)%nat -> k_disk (chunk_at b' c) = [] /\ k_size (chunk_at b' c) = 0) /\
     (forall e, rend e <= W0 -> (In e (k_disk (chunk_at b' dst0)) <-> In e (k_disk (chunk_at b dst0)))) /\
     (forall e, In e (k_disk (chunk_at b' dst0)) -> rend e <= W0 \/ W0 <= fst e) /\
-    (forall c, (c < b_head b)%nat -> gchunk (chunk_at b' c)).
+    (forall c, (c < b_head b)%nat -> gchunk (chunk_at b' c)) /\
+    GPre cf hf K b'.
 Proof. exact gc_pass_reclaims. Qed.
 Print Assumptions C18_pass_layout.
+
+(* (3b) RUNNING THE SAME PASS AGAIN RELEASES NOTHING: the second pass meets only current records (invariant GR: every
+   record still to be processed is the one the index points at or a forgotten tombstone that GC keeps), so its
+   "released" and "size released" counters stay 0.  The second pass runs on the state the first one left -- the
+   proof shows that state again satisfies the GC precondition (files in offset order, no buffered data, hint items
+   well-formed), which is also what lets passes follow one another in C03. *)
+Theorem C18_second_pass_releases_nothing : forall (cf : cfg) (hf : bytes -> N) (K : list bytes),
+  (forall k1 k2, In k1 K -> In k2 K -> hf k1 = hf k2 -> k1 = k2) -> 0 < c_splitcap cf ->
+  forall b m begin_ end_,
+  Rel hf K b m -> GPre cf hf K b -> (begin_ <= end_ < b_head b)%nat ->
+  let b' := fst (gc_pass cf hf b begin_ end_ false) in
+  let gs := snd (gc_pass cf hf b' begin_ end_ false) in
+  g_released gs = 0 /\ g_size_released gs = 0.
+Proof. exact gc_pass_twice. Qed.
+Print Assumptions C18_second_pass_releases_nothing.
 
 (* (4) the clause "each exactly once" is REFUTED for forgotten tombstones (known finding F11): after a restart
    with the tree rebuilt (tombstones are not re-inserted) a pass with begin > 0 keeps EVERY tombstone it meets
